@@ -524,7 +524,7 @@ func ParseDSL(data string) (*OpenFgaDslListener, *OpenFgaDslErrorListener) {
 	for _, line := range strings.Split(data, "\n") {
 		// lines may end in CRLF: the carriage return is not content, and the lexer needs cubic time
 		// for a run of "\r\n" (each '\r' is a line break on its own and half of one)
-		line = strings.TrimSuffix(line, "\r")
+		line = strings.TrimRight(line, "\r")
 		cleanedLine := ""
 
 		switch {
@@ -533,7 +533,8 @@ func ParseDSL(data string) (*OpenFgaDslListener, *OpenFgaDslErrorListener) {
 		case strings.TrimLeft(line, " ")[0:1] == "#":
 			cleanedLine = ""
 		default:
-			cleanedLine = strings.TrimRight(strings.Split(line, " #")[0], " ")
+			// (a carriage return that only blanks separate from the line end would meet the line feed once they are trimmed)
+			cleanedLine = strings.TrimRight(strings.Split(line, " #")[0], " \r")
 		}
 
 		cleanedLines = append(cleanedLines, cleanedLine)
